@@ -1,6 +1,7 @@
 import GoitModel.Cmds
 import GoitModel.CmdsConfig
 import GoitModel.Abstract
+import GoitModel.WorldDriver
 
 /-! Line protocol of the model driver (function-level operations).
     One operation per input line, one canonical answer line per operation. Byte strings are
@@ -49,6 +50,7 @@ def depth : Nat := 64
 
 structure St where
   store : List (Bytes × Bytes) := []
+  ws : WorldDriver.St := {}
 
 def St.fn (s : St) : Store := fun i => (s.store.find? (fun p => p.1 == i)).map (·.2)
 
@@ -88,8 +90,12 @@ def diffOut (d : IndexOps.DiffEntry) : String :=
   (match d.kind with | .deleted => "D" | .new => "N" | .modified => "M") ++ ":" ++ hexOut d.id ++ ":" ++ hexOut d.path
 
 def step (s : St) (line : String) : St × String :=
+  if line.startsWith "w." then
+    let (ws', o) := WorldDriver.step s.ws line
+    ({ s with ws := ws' }, o)
+  else
   match line.trimAscii.toString.splitOn " " with
-  | ["st.clear"] => ({ store := [] }, "ok")
+  | ["st.clear"] => ({ s with store := [] }, "ok")
   | ["st.put", i, c] => ({ s with store := (unhex i, unhex c) :: s.store }, "ok")
   | ["sha", d] => (s, hexOut (H.sha (unhex d)))
   | ["obj.new", k, d] =>
